@@ -7,7 +7,7 @@ from ..model import Program, AnalysisError, own_nodes, norm, names_in, FuncInfo
 from ..cfg import cfg_of
 from ..report import Report
 from ..absint import semiring_laws
-from ..util import callee_last, parents, enclosing_stmt
+from ..util import callee_last, parents, enclosing_stmt, inline_temps
 
 IDX = 'fggs.indices'
 OUTPUT_SIDE = {'output_vaxes', 'output_paxes', 'output_paxes_set', 'output', 'outsize'}
@@ -40,6 +40,7 @@ def _run(prog: Program, rep: Report, tier: str) -> None:
         f = prog.func(IDX, fn)
         n_ctor += zero_relative(rep, prog, f)
     rep.floor('C07-D2 value constructors', n_ctor, 6)
+    default_to_reexpression(rep, prog)
     shorthands(rep, prog)
     co_indexing(rep, prog)
     viterbi_product_convention(rep, prog)
@@ -158,6 +159,57 @@ def zero_relative(rep: Report, prog: Program, f: FuncInfo) -> int:
             rep.ob(rule, g.fq(), norm(c)[:100], g.loc(c), ok,
                    'default of the result is the semiring zero' if ok else f"default is `{norm(d) if d is not None else '<omitted: 0>'}`, not derived from semiring.from_int(0): wrong in the Log/Viterbi/Bool semirings")
     return n
+
+
+def default_to_reexpression(rep: Report, prog: Program) -> None:
+    """einsum's operands are re-expressed relative to the semiring zero by default_to.  A result that keeps the stored pattern
+    (physical tensor, paxes, vaxes of self) denotes the old default outside the pattern, so it may only be `self` itself, under a
+    test that the defaults agree; with a different default the tensor has to be densified first (to_dense() has its own fast path
+    for patterns that are total).  A shortcut that relabels the default of a patterned tensor turns every element outside the
+    pattern into the new default."""
+    rule = 'C07-D2 default_to'
+    pt = prog.cls(IDX, 'PatternedTensor')
+    f = pt.methods.get('default_to')
+    if f is None:
+        rep.error(f"{rule}: PatternedTensor.default_to not found"); return
+    import copy
+    selfn = f.self_name()
+    dparam = [p for p in f.positional_params() if p != selfn][0]
+    # `return A if c else B` is the two returns
+    rets = []
+    for r in [n for n in own_nodes(f.node) if isinstance(n, ast.Return) and n.value is not None]:
+        v = r.value
+        rets += [(v.body, r), (v.orelse, r)] if isinstance(v, ast.IfExp) else [(v, r)]
+    n = 0
+    for v, r in rets:
+        n += 1
+        if isinstance(v, ast.Name) and v.id == selfn:
+            rep.ob(rule, f.fq(), 'return self (defaults agree)', f.loc(r), True, 'the receiver itself; the guard is the comparison of the defaults')
+            continue
+        if isinstance(v, ast.Call) and callee_last(v) == 'PatternedTensor':
+            phys = v.args[0] if v.args else next((k.value for k in v.keywords if k.arg == 'physical'), None)
+            phys = inline_temps(f.node, phys) if phys is not None else None
+            keeps = phys is not None and any(isinstance(x, ast.Attribute) and x.attr in ('physical',) and isinstance(x.value, ast.Name) and x.value.id == selfn for x in ast.walk(phys)) \
+                and not any(isinstance(x, ast.Call) and callee_last(x) in ('to_dense', 'expansion', 'dim_to_dense') for x in ast.walk(phys))
+            # a guard that establishes that the pattern is total (all virtual axes distinct physical axes: `len(set(vaxes)) == len(vaxes)`,
+            # an `is_dense`-style predicate) makes relabelling correct; that case is left undecided rather than reported
+            pm = parents(f)
+            guards_txt = []
+            p_ = pm.get(id(r))
+            while p_ is not None:
+                if isinstance(p_, ast.If):
+                    guards_txt.append(norm(p_.test))
+                p_ = pm.get(id(p_))
+            total = any(('set(' in g and 'vaxes' in g) or 'dense' in g or 'permutation' in g for g in guards_txt)
+            if keeps and total:
+                rep.ob(rule, f.fq(), norm(v)[:90], f.loc(r), True, f"relabelling under a guard that speaks about the pattern being total ({guards_txt[0][:60]}): not decided here")
+                continue
+            rep.ob(rule, f.fq(), norm(v)[:90], f.loc(r), not keeps,
+                   'the tensor is densified before it is given the new default' if not keeps else
+                   'the stored pattern is kept and only the default replaced: every element outside the pattern (off the diagonal of a repeated axis, outside a sum or product block) silently becomes the new default')
+            continue
+        rep.ob(rule, f.fq(), norm(v)[:90], f.loc(r), True, 'result built by another operation (not decided here)')
+    rep.floor(rule, n, 2)
 
 
 def shorthands(rep: Report, prog: Program) -> None:
